@@ -69,7 +69,7 @@ def input_sources(rng, quick):
     # O1: bound branching ** depth
     for depth, b in ((12, 2), (7, 3), (5, 5), (31, 1), (33, 1)) + (() if quick else ((14, 2), (9, 3))):
         out.append((f"input-dag-{depth}x{b}", input_schema(input_dag(depth, b))))
-    for i in range(40 if quick else 400):
+    for i in range(30 if quick else 400):
         out.append((f"input-random-{i}", input_schema(input_random(rng, rng.randint(1, 7)))))
     # not edges: nullable / list references to self
     out.append(("input-nullable-self", input_schema([("A", ["A", "[A!]!", "[A]"])])))
@@ -212,10 +212,10 @@ def dir_sources(rng, quick):
         out.append((f"dir-via-{a}", dir_cycle_via([a])))
         for b in EDGE_KINDS:
             out.append((f"dir-via-{a}+{b}", dir_cycle_via([a, b])))
-    for _ in range(20 if quick else 300):
+    for _ in range(10 if quick else 300):
         ks = [rng.choice(EDGE_KINDS) for _ in range(3)]
         out.append(("dir-via-" + "+".join(ks), dir_cycle_via(ks)))
-    for i in range(60 if quick else 600):
+    for i in range(40 if quick else 600):
         out.append((f"dir-random-{i}", dir_random(rng)))
     # a type that refers to itself is skipped by the type stack, not an error
     out.append(("dir-type-self", dir_schema([("d", [("T", [])])], [("input", "T", [], [("f", "T", [])])])))
@@ -292,7 +292,7 @@ def frag_sources(rng, quick):
     long_then_short = [("R", "...S " + "...L0"), ("S", "x")] + [
         (f"L{k}", f"...L{k + 1}" if k < 99 else "...S ...R") for k in range(100)]
     out.append(("frag-seen-shortcut", frag_doc(long_then_short)))
-    for i in range(60 if quick else 800):
+    for i in range(40 if quick else 800):
         out.append((f"frag-random-{i}", frag_doc(frag_random(rng, rng.randint(1, 7)))))
     return out
 
@@ -354,7 +354,7 @@ def walk_sources(rng, quick):
     dirs = ["", "", " @defer", " @defer(if: false)", " @defer(if: true)", " @defer(if: $v)", " @skip(if: false)",
             " @skip(if: true)", " @include(if: true)", " @include(if: false)", " @skip(if: $v)", " @defer(label: \"l\")",
             " @skip(if: false) @defer", " @include(if: true) @defer(if: true)"]
-    for i in range(80 if quick else 1000):
+    for i in range(50 if quick else 1000):
         optype = rng.choice(["query", "mutation", "subscription", "subscription"])
         cond = {"query": "Query", "mutation": "Mutation", "subscription": "Subscription"}[optype]
         names = [f"F{j}" for j in range(rng.randint(0, 4))]
@@ -477,7 +477,7 @@ def merge_sources(rng, quick):
     out.append(("merge-cyclic", merge_case([[("f", "a", "a", [("s", "F")])]], {"F": [("f", "a", "a", [("s", "F")])]})))
     out.append(("merge-cyclic-2", merge_case([[("s", "F")]], {"F": [("f", "a", "a", [("s", "G")])],
                                                              "G": [("f", "b", "b", [("s", "F")]), ("f", "x", "x", [])]})))
-    for i in range(40 if quick else 500):
+    for i in range(30 if quick else 500):
         names = [f"F{j}" for j in range(rng.randint(0, 3))]
 
         def body(depth):
@@ -534,7 +534,7 @@ def malformed_sources(rng, quick):
     small = ["{", "}", "(", ":", "!", "@", "$", "...", "a", "type", "on", "\"s\"", "[", "="]
     seqs += [[a, b, c] for a in small for b in small for c in small]
     if quick:
-        seqs = seqs[:: max(1, len(seqs) // 900)]
+        seqs = seqs[:: max(1, len(seqs) // 600)]
     for s in seqs:
         out.append(" ".join(s))
     # one-token deletions / duplications of valid documents
@@ -612,4 +612,58 @@ def overflow_sources(quick):
         # walk reports excessive depth
         rev = " ".join(f"...F{i}" for i in reversed(range(nf)))
         out.append((f"overflow-leaf-first-{via}-{nf}x{k}", "type Query { a: Query x: Int }", frag_doc(frs, op=rev), nf * k))
+    return out
+
+
+def valid_sources():
+    """valid schemas and documents: the whole pipeline (serialization x3, re-validation, introspection) runs on them"""
+    sch = '''"""
+The schema — "quoted", \\"""block\\""", unicode é 中 \U0001F680
+"""
+schema @sd(a: 1) { query: Q mutation: M subscription: S }
+extend schema @sd(a: 2)
+directive @sd(a: Int) repeatable on SCHEMA
+directive @t repeatable on SCALAR | ENUM | ENUM_VALUE | INPUT_OBJECT | INPUT_FIELD_DEFINITION | ARGUMENT_DEFINITION
+directive @d(s: String = "x\\ny", l: [Int!] = [1, 2], i: In = {a: 1, b: [{a: 2}]}, e: E = A) repeatable on
+  | QUERY | MUTATION | SUBSCRIPTION | FIELD | FRAGMENT_DEFINITION | FRAGMENT_SPREAD | INLINE_FRAGMENT | VARIABLE_DEFINITION
+  | SCALAR | OBJECT | FIELD_DEFINITION | ARGUMENT_DEFINITION | INTERFACE | UNION | ENUM | ENUM_VALUE | INPUT_OBJECT | INPUT_FIELD_DEFINITION
+"a scalar" scalar Url @specifiedBy(url: "https://example.org/é") @t
+interface Node @d { "the id" id: ID! @d }
+interface Named implements Node { id: ID! name(upper: Boolean = false @d): String @deprecated(reason: "r\\"é") }
+type Q implements Node & Named @d { id: ID! name(upper: Boolean = false): String q: Q list: [[Q!]]! u: U e(e: E = B): E
+  f(x: Float = 1.5e3, i: In, l: [In!] = []): Float url: Url other: Other }
+extend type Q @d(s: "ext") { ext: Int }
+type Other implements Node { id: ID! o: Int @deprecated }
+type M { set(i: In!): Q }
+type S { tick(n: Int = 1): Q }
+union U @d = Q | Other
+extend union U = M
+enum E @t { A @t B @deprecated(reason: null) C }
+extend enum E { D }
+input In @t { a: Int! = 1 @t b: [In!] c: E = A d: Url }
+extend input In { z: String = "z" }
+'''
+    docs = [
+        "{ id }",
+        "query Q1($i: In = {a: 2}, $l: [In!]) @d { q { ...F } f(x: 1.0, i: $i, l: $l) ... on Q @d { e(e: C) } u { __typename ... on Other { o } } }"
+        " fragment F on Q @d { id name(upper: true) list { id } }",
+        "mutation { set(i: {a: 1, b: [{a: 2, c: D}], z: \"\\u00e9 \\\\ \\n\"}) { id } }",
+        "subscription Sub($n: Int) { tick(n: $n) { id name } }",
+        "query I { __schema { types { name kind fields(includeDeprecated: true) { name isDeprecated deprecationReason args { name defaultValue } } "
+        "enumValues(includeDeprecated: true) { name } inputFields { name defaultValue } possibleTypes { name } interfaces { name } } "
+        "directives { name isRepeatable locations args { name type { kind ofType { name } } } } } "
+        "t: __type(name: \"Q\") { name description specifiedByURL } u: __type(name: \"Url\") { specifiedByURL } n: __type(name: \"Nope\") { name } __typename }",
+        "query V($s: String = \"\"\"block \"q\" \\\"\"\" é\"\"\") { name @d(s: $s) a: name @skip(if: false) b: name @include(if: true) }",
+        "{ q { q { q { q { q { id list { list: id } } } } } } q { q { q { q { q { name } } } } } }",
+    ]
+    out = [("valid", sch, d) for d in docs]
+    # a large valid schema
+    big = ["type Query { " + " ".join(f"t{i}: T{i}" for i in range(200)) + " }"]
+    for i in range(200):
+        big.append(f"type T{i} implements I{i % 10} {{ id: ID! next: T{(i + 1) % 200} u: U{i % 5} }}")
+    for i in range(10):
+        big.append(f"interface I{i} {{ id: ID! }}")
+    for i in range(5):
+        big.append(f"union U{i} = " + " | ".join(f"T{j}" for j in range(i, 200, 5)))
+    out.append(("valid-big", "\n".join(big), "{ t0 { id next { id u { __typename ... on T1 { id } } } } __schema { types { name } } }"))
     return out
